@@ -611,7 +611,8 @@ class Parser:
                 flags |= self.RE_FLAG_MAP[flag]
         try:
             return RegexLiteral(value=re.compile(pattern, flags))
-        except re.error as err:
+        except (re.error, OverflowError) as err:
+            # `re` raises OverflowError for an oversized repetition count.
             raise JSONPathSyntaxError(
                 f"invalid regular expression: {err}", token=pattern_token
             ) from None
